@@ -119,6 +119,48 @@ def run(rep, props, replay=None):
             rep.case(("mean2d", X2.tobytes()), kind="mean/2-D")
             if mu2.shape != (m, 3) or np.max(np.abs(mu2 - X2.mean(axis=0))) > 1e-12 * sc:
                 rep.violation("mean of 2-D dense data is not the pointwise average", {"X2": C.hexf(X2)})
+    # the TRANSLATED source of _estimate_noise_variance (Gen/Helpers.v, regenerated on this run) executed in Q, per curve
+    rung = C.CoqRun("C09", IMPORTS.replace("Tie.C09.", "Gen.Helpers Tie.C09."), shard=1)
+    gtodo = []
+    for t, what, kind, X in todo:
+        if what == "noise-variance" and len(gtodo) < 30:
+            order = [1, 2, 3, 5, 10][len(gtodo) % 5]
+            xc = np.asarray(X[0], float)
+            try:
+                v = float(_estimate_noise_variance(xc, order))
+            except Exception:  # noqa: BLE001
+                continue
+            scx = max(1.0, float(np.max(np.abs(xc))))
+            gt = rung.add(f"match gen_noise_var1 opsQ dseq {order}%nat {C.qlist(xc)} with Some v => qclose {C.qlit(1e-9 * scx * scx)} v "
+                          f"{C.qlit(v)} | None => false end")
+            gtodo.append((gt, order, xc, v))
+    if gtodo:
+        gt = rung.add(f"match gen_noise_var1 opsQ dseq 0%nat {C.qlist(gtodo[0][2])} with None => true | Some _ => false end")
+        gtodo.append((gt, 0, gtodo[0][2], None))
+        gt = rung.add(f"match gen_noise_var1 opsQ dseq 11%nat {C.qlist(gtodo[0][2])} with None => true | Some _ => false end")
+        gtodo.append((gt, 11, gtodo[0][2], None))
+    try:
+        resg = rung.run()
+    except RuntimeError as e:
+        rep.notes.append(("translated _estimate_noise_variance could not be evaluated (Gen/Helpers.v does not load): " + str(e))[:300])
+        resg, gtodo = {}, []
+    for gt, order, xc, v in gtodo:
+        rep.case(("translated-noise", order, xc.tobytes()), nontrivial=len(xc) > order, kind="translated-noise-variance",
+                 sample={"what": "translated _estimate_noise_variance", "order": order, "n": int(len(xc))})
+        if v is None:
+            try:
+                _estimate_noise_variance(xc, order)
+                raised = False
+            except ValueError:
+                raised = True
+            if not (resg[gt] and raised):
+                rep.disagreements_checked += 1
+                rep.violation(f"_estimate_noise_variance(order={order}): the order must be rejected with ValueError "
+                              f"(code raised: {raised}; translated source rejects: {resg[gt]})", {"x": C.hexf(xc), "order": order})
+        elif not resg[gt]:
+            rep.disagreements_checked += 1
+            rep.violation("translator check: the Gallina translation of _estimate_noise_variance evaluated in Q differs from the "
+                          "running code on the same curve", {"x": C.hexf(xc), "order": order, "impl": v})
     res = runq.run()
     for t, what, kind, X in todo:
         rep.case((what, kind, X.tobytes(), t), nontrivial=bool(np.ptp(X) > 0), kind=f"{what}/{kind}",
